@@ -24,6 +24,9 @@ ONE = {
     'C20c': '_run_frontend catches only ConnectionClosedError and sets the start-up event on two paths instead of in a finally: a refused control connection hangs the constructor',
     'C02c': 'ProcessWorker._run reports type(e)(str(e)) instead of e: the error keeps its type but loses its arguments (process kind only)',
     'C11c': '_recv_exactly replaced by one recv(size, MSG_WAITALL) (same slip as C01b, found independently for C11): a body cut short by a disconnect reaches loads and kills the server',
+    'C05c': 'results_iter rewritten with iter(fetch, None): a target result of None ends the iteration (None means both "stream ended" and "value None")',
+    'C18c': 'RemoteContext clean-up removes children from the list it iterates: every second worker of a deleted context survives',
+    'C19c': 'autoclose_active_children iterates the active_children() generator twice: the wait/terminate loop never runs',
     'C19b': 'active_children() prunes in two critical sections: a registration in between is lost',
 }
 for d in sorted(glob.glob('/verif/seeded/*/')):
